@@ -32,7 +32,7 @@ func init() {
 		modes: func(tier string, seed int64) []modeSpec {
 			a, b := 3200, 64
 			if tier == "thorough" {
-				a, b = 100000, 1200
+				a, b = 250000, 1600
 			}
 			return []modeSpec{
 				{name: "internal", n: a, perChild: a / 16, timeout: 20 * time.Minute},
